@@ -16,6 +16,8 @@ type seedMsg struct {
 	eofDelimited bool   // response body delimited by connection close: consumption is "everything"
 	skipBody     bool   // caller sets Response.SkipBody (HEAD semantics): the message on the wire is the head only
 	multipart    bool
+	body         []byte // reference body (what Body() must return once the message is accepted)
+	interim      bool   // preceded by 1xx responses
 }
 
 var (
@@ -153,13 +155,15 @@ func genRequest(rnd *rand.Rand) seedMsg {
 		}
 		fmt.Fprintf(&w, "Content-Length: %d\r\n\r\n", len(body))
 		w.Write(body)
+		m.body = body
 	case "chunked":
 		w.WriteString("Transfer-Encoding: chunked\r\n")
 		if rnd.Intn(3) == 0 {
 			w.WriteString("Trailer: Foo\r\n")
 		}
 		w.WriteString("\r\n")
-		writeChunked(rnd, &w, randBody(rnd))
+		m.body = randBody(rnd)
+		writeChunked(rnd, &w, m.body)
 	case "multipart":
 		boundary := []string{"BOUNDARY", "xYz123", "----WebKitFormBoundary7MA4YWxkTrZu0gW"}[rnd.Intn(3)]
 		body := multipartBody(rnd, boundary)
@@ -188,6 +192,7 @@ func genResponse(rnd *rand.Rand) seedMsg {
 			w.WriteString([]string{"HTTP/1.1 100 Continue\r\n\r\n", "HTTP/1.1 103 Early Hints\r\nLink: </s.css>; rel=preload\r\n\r\n"}[rnd.Intn(2)])
 		}
 		framing += "+interim"
+		m.interim = true
 	}
 	base := strings.TrimSuffix(framing, "+interim")
 	version := "HTTP/1.1"
@@ -216,15 +221,18 @@ func genResponse(rnd *rand.Rand) seedMsg {
 		body := randBody(rnd)
 		fmt.Fprintf(&w, "Content-Length: %d\r\n\r\n", len(body))
 		w.Write(body)
+		m.body = body
 	case "head":
 		fmt.Fprintf(&w, "Content-Length: %d\r\n\r\n", rnd.Intn(100000))
 		m.skipBody = true
 	case "chunked":
 		w.WriteString("Transfer-Encoding: chunked\r\n\r\n")
-		writeChunked(rnd, &w, randBody(rnd))
+		m.body = randBody(rnd)
+		writeChunked(rnd, &w, m.body)
 	case "identity":
 		w.WriteString("\r\n")
-		w.Write(randBody(rnd))
+		m.body = randBody(rnd)
+		w.Write(m.body)
 		m.eofDelimited = true
 	}
 	m.b = w.Bytes()
